@@ -2071,6 +2071,12 @@ func (app *App) findBestStreamFrom(node *mysql.Node, clusterState map[string]*no
 			}
 		}
 
+		if candidateState == nil {
+			// stream_from names a host that is not registered (any more)
+			app.logger.Error().Msgf("repair: stream_from host %s of %s is not among cluster hosts. Fallback to master", streamFrom, host)
+			return master
+		}
+
 		hasReasonableLag := candidateState.IsMaster || (candidateState.SlaveState != nil &&
 			candidateState.SlaveState.ReplicationState == mysql.ReplicationRunning &&
 			candidateState.SlaveState.ReplicationLag != nil &&
